@@ -39,6 +39,11 @@ pub fn map_of(cm: &CodeMap) -> Map {
 }
 
 fn norm_err<E>(e: Error<E>) -> PErr {
+	norm_err_len(e, &|c| c.len_utf8())
+}
+
+/// `len_of` gives the length a character had in the source (the unit of positions and spans).
+fn norm_err_len<E>(e: Error<E>, len_of: &dyn Fn(char) -> usize) -> PErr {
 	let pos = e.position();
 	let span = e.span();
 	let (r, p, s, t) = match e {
@@ -77,8 +82,8 @@ fn norm_err<E>(e: Error<E>) -> PErr {
 			sp.end(),
 		),
 	};
-	// the span of an unexpected character may be empty or cover that character (at most 4 units)
-	let unexpected_char_span = matches!(r, PErr::Unexpected(_, Some(_))) && span.start() == s && span.end() > s && span.end() - s <= 4;
+	// the span of an unexpected character may be empty or cover exactly that character, in the units of the source
+	let unexpected_char_span = matches!(r, PErr::Unexpected(_, Some(c)) if span.start() == s && span.end() == s + len_of(c));
 	if pos != p || span.start() != s || (span.end() != t && !unexpected_char_span) {
 		return PErr::Incoherent(format!(
 			"{:?}: position()={} span()={}..{}",
@@ -255,10 +260,15 @@ impl Widths {
 /// whose characters carry the lengths given by `w`.
 pub fn parse_widths(s: &str, o: Opts, w: Widths, fallible: bool) -> PRes {
 	let op = options(o);
-	if fallible {
-		wrap(|| Value::parse_with(s.chars().map(|c| Ok::<DecodedChar, Infallible>(DecodedChar::new(c, w.of(c)))), op))
+	let r = if fallible {
+		guard(|| Value::parse_with(s.chars().map(|c| Ok::<DecodedChar, Infallible>(DecodedChar::new(c, w.of(c)))), op).map_err(|e| norm_err_len(e, &|c| w.of(c))))
 	} else {
-		wrap(|| Value::parse_infallible_with(s.chars().map(|c| DecodedChar::new(c, w.of(c))), op))
+		guard(|| Value::parse_infallible_with(s.chars().map(|c| DecodedChar::new(c, w.of(c))), op).map_err(|e| norm_err_len(e, &|c| w.of(c))))
+	};
+	match r {
+		Ok(Ok((v, cm))) => Ok((v, map_of(&cm))),
+		Ok(Err(e)) => Err(e),
+		Err(p) => Err(PErr::Panic(p)),
 	}
 }
 
